@@ -231,7 +231,7 @@ func runC03(w *eng.W) {
 	// (g) the misuse the statement lists is reported through the returned error (never a value)
 	for _, src := range []string{"s(1)", "x(1)", "n()", "arr(0)", "m.k(1)", "st()", "len()", "len(1, 2)", "left('abc')", "left('abc', 'x')", "mid('abc', 'a', 2)", "date('a', 1, 1)", "left('abc', -1)", "right('abc', -1)",
 		"regexp('ab', '(')", "regexp('ab', 'a)(b')", "regexp('ab', ')(')", "regexp('ab', 'x)|(y')", "regexp('ab', '[a-')", "regexp('ab', '*a')", "regexp('ab', 'a)')", "regexp('ab', '(?z)a')",
-		"arr == arr", "[1] == [1]", "m == m", "m != m", "st.Missing", "st.Missing.x", "f((1)...)", "f(m...)", "len([1]...)", "n!.k", "m.q!.k"} {
+		"arr == arr", "[1] == [1]", "m == m", "m != m", "arr < arr", "[1] >= [1]", "m <= m", "m > m", "[1, 2] < [3]", "arr >= m", "m < [1]", "arr !== arr", "m === m", "st.Missing", "st.Missing.x", "f((1)...)", "f(m...)", "len([1]...)", "n!.k", "m.q!.k"} {
 		if !w.Take() {
 			continue
 		}
@@ -281,6 +281,23 @@ func runC03(w *eng.W) {
 					do("builtin-spread", name+"("+args+"...)", "zoo")
 				}
 			})
+		}
+	}
+	// (h) exponent walks: quotients and products of literals at the edge of the exponent range, repeated until
+	// the exponent has left the decimal library's range (10^18) and the range of a 64-bit integer, then used
+	// as an operand of everything that aligns, shifts or counts digits
+	for _, k := range []int{1, 2, 5, 9, 10, 11, 45, 46, 47, 89, 90, 91, 92, 93, 100, 184, 185} {
+		if !w.Take() {
+			continue
+		}
+		for _, last := range []string{"1e23372036854775900", "1e23372036854775901", "1e23372036854775899", "3", "1e99999999999999999"} {
+			for _, walk := range []string{"1e-99999999999999999" + strings.Repeat(" / 1e99999999999999999", k) + " / " + last, "7e99999999999999999" + strings.Repeat(" / 1e-99999999999999999", k) + " / " + last,
+				"1e99999999999999999" + strings.Repeat(" * 1e99999999999999999", k) + " * " + last, "3e-99999999999999999" + strings.Repeat(" * 1e-99999999999999999", k) + " * " + last} {
+				for _, form := range []string{"1e99999999999999999 % (%s)", "(%s) % 7", "7 % (%s)", "(%s) % 1e-99999999999999999", "(%s) + 1", "1 - (%s)", "(%s) * (%s)", "1 / (%s)", "floor(%s)", "round(%s)", "toInt(%s)", "toString(%s)",
+					"(%s) < 1", "(%s) == 0", "ln(%s)", "log(%s)", "sqrt(%s)", "exp(%s)", "(%s) & 1", "~(%s)", "left('abc', %s)", "max(%s, 1)", "roundCash(%s, 2)", "-(%s)", "abs(%s)", "finite(%s)", "date(%s, 1, 1)"} {
+					do("exponent-walks", strings.Replace(form, "%s", walk, -1), "zoo")
+				}
+			}
 		}
 	}
 	// (f) pathological family, evaluated
